@@ -199,7 +199,7 @@ void verif_case(Ctx &c) {
 			}
 		} catch(Panic &p) { dsched::Ignore ig; if(w.error.empty()) w.error = "frg_panic on a valid history: " + p.msg; }
 	});
-	unsigned smode = t.pick(5); c.tagf("sched-mode-%u", smode);
+	unsigned smode = dsched::pick_mode(t); c.tagf("sched-mode-%u", smode & 0xff); if(smode & 0x100) c.tag("sched-mode-window-hunting");
 	auto choose = dsched::make_chooser(t, smode);
 	auto r = dsched::run(bodies, choose, 60000);
 	if(saw_deferred_discard) c.discard("offline() of an agent with a deferred grace period (documented TODO)");
